@@ -22,6 +22,19 @@ def schema_query(include_deprecated=True):
     return SCHEMA_QUERY % {"dep": "true" if include_deprecated else "false"}
 
 
+def decorated_schema_query(include_deprecated=True):
+    """the standard query with a (neutral) directive on every list-valued introspection selection and a variable for one of them:
+    what introspection reports does not depend on directives written on the introspection selections themselves"""
+    q = SCHEMA_QUERY
+    for a, b in (("fields(includeDeprecated: %(dep)s) {", "fields(includeDeprecated: %(dep)s) @include(if: $yes) {"),
+                 ("enumValues(includeDeprecated: %(dep)s) {", "enumValues(includeDeprecated: %(dep)s) @skip(if: false) {"),
+                 ("types {", "types @include(if: true) {"), ("inputFields {", "inputFields @skip(if: false) {"),
+                 ("args {", "args @include(if: true) {"), ("directives {", "directives @skip(if: false) {")):
+        assert a in q
+        q = q.replace(a, b)
+    return "query IQ($yes: Boolean = true) " + q % {"dep": "true" if include_deprecated else "false"}
+
+
 def type_query(name, include_deprecated=True):
     return ("{ __type(name: %s) { " % doc.escape_string(name)) + (TYPE_BODY % {"dep": "true" if include_deprecated else "false"}) + " } }"
 
